@@ -111,7 +111,7 @@ class Run:
         self.accepted_mutations = 0
         self.faults_fired = 0
         self.steps = 0
-        self.alpha_ids = sorted({t['id'] for t in trace['universe']['tasks']}) + [0]
+        self.alpha_ids = sorted({t['id'] for t in trace['universe']['tasks']}, key=repr) + [0, '0', 'zz']
         self.released = set()
         self.poisoned = 0
 
@@ -133,7 +133,17 @@ class Run:
                 if i >= max_ops:
                     break
                 self.gen.released = self.released
-                op = self.gen.next_op(S0, w, i)
+                try:
+                    op = self.gen.next_op(S0, w, i)
+                except core.HarnessError:
+                    raise
+                except Exception as e:  # noqa
+                    # the state-aware generator presumes a sound graph; on a world that another property's oracle
+                    # has already flagged as corrupt it may not find its way: the run simply ends there
+                    if self.poisoned:
+                        self.count('generator_gave_up_on_corrupt_world')
+                        break
+                    raise core.HarnessError(f'generator failed on seed {self.trace.get("seed")} step {i}: {type(e).__name__}: {e}')
                 ops.append(op)
             else:
                 if i >= len(ops):
